@@ -16,7 +16,8 @@ RegressTrace.tla decides each event.
 """
 import numpy as np
 
-from ..common import execute_cases, ints, qs
+from ..common import ints, qs
+from ..lib_watchdog import execute_cases_watchdog
 
 S6 = 10**6
 EMPTY = {"shape": [1], "data": [0]}
@@ -263,6 +264,18 @@ def exec_pls(case):
 EXEC = {"reg": exec_reg, "pls": exec_pls}
 
 
+def hung_event(case):
+    """A case whose worker had to be killed (the fit / predict never returned): reported as exception class 'Timeout'."""
+    c = case["cfg"]
+    if c["kind"] == "reg":
+        return {"id": case["id"], "kind": "reg", "cfg": c, "xnew": {"shape": [1] + list(c["xs"]), "data": [0] * int(np.prod(c["xs"]))},
+                "fit": {"raised": True, "exc": "Timeout"}, "weight": EMPTY, "pred": EMPTY, "vec": EMPTY, "dense": EMPTY,
+                "factors": {"fs": [], "w": []}, "forms": [], "refit": {"raised": True}}
+    blank = {"raised": True, "exc": "Timeout", "scores": EMPTY, "transform": EMPTY, "loads": [], "yload": EMPTY, "pred": EMPTY}
+    return {"id": case["id"], "kind": "pls", "cfg": c, "perm": list(range(c["n"])), "yoff": 1, "mtest": 4,
+            "base": dict(blank), "extra": {"raised": True}, "shiftx": dict(blank), "shifty": dict(blank), "permfit": dict(blank)}
+
+
 def execute(case):
     return EXEC[case["cfg"]["kind"]](case)
 
@@ -276,7 +289,7 @@ def run(chk, opts):
     cases = [{"id": "C19/%s/%05d" % (c["kind"], k), "cfg": c, "seed": chk.seed,
               "derived": {"sample_order": len(c["xs"]), "scalar_target": len(c.get("ys", [0])) == 0}} for k, c in enumerate(cfgs)]
     chk.add_cases(cases)
-    events = execute_cases(execute, cases, repo=chk.repo)
+    events = execute_cases_watchdog(execute, cases, hung_event, repo=chk.repo, cpu_budget_s=float(opts.get("cpu_budget", 60)))
     count = {}
     for c in cfgs:
         key = c.get("model", c["kind"])
